@@ -1063,6 +1063,9 @@ class Scenario:
     tsdeltas: list = field(default_factory=lambda: [0])
     kind: str = ""
     with_getters: bool = True
+    setup_extra: list = field(default_factory=list)   # asm appended to setUp after the targets are deployed
+    # arbitrary initial storage (svm.enableSymbolicStorage): the brute force runs once per variant, a variant = [(addr, slot, value)]
+    init_variants: list = field(default_factory=lambda: [[]])
 
     def build(self) -> tuple:
         """-> (TestContract of the invariant test, [TestContract of targets])"""
@@ -1077,7 +1080,7 @@ class Scenario:
             blobs += [("mark", lab), ("raw", blob)]
             setup += [("push", len(blob)), ("ref", lab), ("push", 0), "CODECOPY",
                       ("push", len(blob)), ("push", 0), ("push", 0), "CREATE", "POP"]
-        fns = [Fn("setUp()", setup + ["STOP"] + blobs)]
+        fns = [Fn("setUp()", setup + list(self.setup_extra) + ["STOP"] + blobs)]
         if self.with_getters:
             for g in GETTERS:
                 v = self.filters.get(g, [])
@@ -1162,9 +1165,12 @@ class Scenario:
         return out
 
 
-def explore_lines(batch: "RefBatch", scn: Scenario, desc: TestContract, depth: int):
-    """world + registered moves/probes + explore; -> (index of the explore reply, moves, probe names)"""
+def explore_lines(batch: "RefBatch", scn: Scenario, desc: TestContract, depth: int, init=()):
+    """world (+ initial storage values `init` = [(addr, slot, value)]) + registered moves/probes + explore;
+    -> (index of the explore reply, moves, probe names)"""
     batch.world(desc)
+    for a, sl, v in init:
+        batch.add(f"storage {hx(a)} {hx(sl)} {hx(v)}")
     batch.add("clearmoves")
     moves = scn.moves()
     for _lab, s, a, cd, dt in moves:
